@@ -346,6 +346,12 @@ func (o *Optimizer) OptimizeStatements(stmts []ast.Statement) []ast.Statement {
 				// Separate invariant assignments from loop-variant ones
 				for _, bodyStmt := range s.Body {
 					if assignStmt, ok := bodyStmt.(*ast.AssignStatement); ok {
+						// A right-hand side with side effects (a call) must run once
+						// per iteration, and not at all if the loop does not
+						if !isSideEffectFree(assignStmt.Value) {
+							loopBody = append(loopBody, bodyStmt)
+							continue
+						}
 						// Check if this assignment is loop-invariant
 						// An assignment is invariant if:
 						// 1. Its RHS doesn't depend on modified variables
